@@ -80,9 +80,22 @@ def make_items(cx, spec, nprog, nenv, streams=('corpus', 'fragment', 'shapes')):
     if 'twofield' in streams:
         rng = random.Random(f"twofield/{cx.seed}")
         idxs = list(range(gen.N_TWOFIELD)); rng.shuffle(idxs)
-        for i in idxs[:(32 if cx.quick() else gen.N_TWOFIELD)]:
+        if cx.quick():
+            # stratified: every (kind check, spelling, asserted / branched) combination once, with a random address check
+            nk, na = len(gen.TWOFIELD_KINDS), len(gen.TWOFIELD_ADDR)
+            idxs = []
+            for k in range(nk):
+                for neg in (0, 1):
+                    for sp in (0, 1, 2):
+                        a = rng.randrange(na)
+                        idxs.append(k + nk * a + nk * na * neg + nk * na * 2 * sp)
+                        if gen.TWOFIELD_KINDS[k] is not None and gen.TWOFIELD_KINDS[k][0] == 'OnCompletion':
+                            a2 = (a + 1) % na                      # the other parity: with / without the kind prelude
+                            idxs.append(k + nk * a2 + nk * na * neg + nk * na * 2 * sp)
+        for i in idxs:
             src, tags = gen.twofield(cx.seed, i)
-            items.append({'name': f'twofield/{cx.seed}/{i}', 'src': src, 'nenv': nenv, 'seed': cx.seed, 'stream': 'twofield', 'tags': tags})
+            items.append({'name': f'twofield/{cx.seed}/{i}', 'src': src, 'nenv': nenv, 'seed': cx.seed, 'stream': 'twofield', 'tags': tags,
+                          'exact': 'twofield' if spec.get('exact', False) else False})
     if 'layout' in streams:
         for i in range(nprog):
             items.append({'name': f'layout/{cx.seed}/{i}', 'src': gen.layout(cx.seed, i), 'nenv': nenv // 3, 'seed': cx.seed, 'stream': 'layout'})
